@@ -590,3 +590,253 @@ Proof.
   rewrite (apply_is_set s1 ip n _ _ _ _ Hg).
   exact (policy_enforced_partial s1 true ip down up pr Hpal Hd Hu Hp).
 Qed.
+
+(* ------------------------------------------------------------------ the policy table over ALL histories *)
+(* What one plan name is bound to after a history of control-plane calls, told without the table: the last
+   AddPolicy of that name (non-empty names only), RemovePolicy unbinds, LoadDefaultPolicies re-defines the
+   built-in names.  Every other op (SetSubscriberQoS, packets, snapshots, GetPolicy ...) leaves it alone. *)
+Fixpoint assoc_last (l : list (bytes * pol)) (n : bytes) (cur : option pol) : option pol :=
+  match l with [] => cur | (n', v) :: tl => assoc_last tl n (if bytes_eqb n n' then Some v else cur) end.
+
+Definition plan_track (n : bytes) (cur : option pol) (o : op) : option pol :=
+  match o with
+  | PolAdd n' d u b p => match n' with [] => cur | _ => if bytes_eqb n n' then Some (d, u, b, p) else cur end
+  | PolRemove n' => if bytes_eqb n n' then None else cur
+  | PolLoadDefaults => assoc_last default_policies n cur
+  | _ => cur
+  end.
+Definition plan_after (n : bytes) (ops : list op) (cur : option pol) : option pol := fold_left (plan_track n) ops cur.
+
+Lemma bytes_eqb_refl k : bytes_eqb k k = true.
+Proof. apply bytes_eqb_eq. reflexivity. Qed.
+
+Lemma bytes_eqb_trans_false m n n' : bytes_eqb n n' = false -> bytes_eqb m n = true -> bytes_eqb m n' = false.
+Proof.
+  intros E H. apply bytes_eqb_eq in H. subst m. exact E.
+Qed.
+
+Lemma p_get_put_gen t : forall n v m, p_get (p_put t n v) m = if bytes_eqb m n then Some v else p_get t m.
+Proof.
+  induction t as [|[n' v'] t IH]; intros n v m; cbn; [reflexivity|].
+  destruct (bytes_eqb n n') eqn:E.
+  - apply bytes_eqb_eq in E. subst n'. cbn. destruct (bytes_eqb m n); reflexivity.
+  - destruct (lex_leb n n'); cbn; [reflexivity|].
+    rewrite IH. destruct (bytes_eqb m n') eqn:E2; [|reflexivity].
+    destruct (bytes_eqb m n) eqn:E3; [|reflexivity].
+    apply bytes_eqb_eq in E2, E3. subst. rewrite bytes_eqb_refl in E. discriminate.
+Qed.
+
+Lemma p_get_del_gen t : forall n m, p_get (p_del t n) m = if bytes_eqb m n then None else p_get t m.
+Proof.
+  induction t as [|[n' v'] t IH]; intros n m; cbn; [destruct (bytes_eqb m n); reflexivity|].
+  destruct (bytes_eqb n n') eqn:E.
+  - apply bytes_eqb_eq in E. subst n'. rewrite IH. destruct (bytes_eqb m n); reflexivity.
+  - cbn. rewrite IH. destruct (bytes_eqb m n') eqn:E2; [|reflexivity].
+    destruct (bytes_eqb m n) eqn:E3; [|reflexivity].
+    apply bytes_eqb_eq in E2, E3. subst. rewrite bytes_eqb_refl in E. discriminate.
+Qed.
+
+Lemma p_get_fold_put l : forall t m,
+  p_get (fold_left (fun t x => p_put t (fst x) (snd x)) l t) m = assoc_last l m (p_get t m).
+Proof.
+  induction l as [|[n' v] l IH]; intros t m; cbn [fold_left assoc_last fst snd]; [reflexivity|].
+  rewrite IH, p_get_put_gen. reflexivity.
+Qed.
+
+Lemma pols_set_map s d m : pols (set_map s d m) = pols s.
+Proof. destruct d; reflexivity. Qed.
+
+Lemma plan_step s o n : p_get (pols (fst (fst (step s o)))) n = plan_track n (p_get (pols s) n) o.
+Proof.
+  destruct o; cbn [step plan_track].
+  - destruct (_ && _); cbn [fst]; [apply f_equal2; [apply pols_set_map|reflexivity]|reflexivity].
+  - destruct (is_v4 ip); [|reflexivity]. unfold set_qos. reflexivity.
+  - destruct (is_v4 ip); reflexivity.
+  - destruct (qos_prog _ _ _ _ _ _) as [[m' v] mk]. cbn [fst]. rewrite pols_set_map. reflexivity.
+  - destruct (qos_prog _ _ _ _ _ _) as [[m' v] mk]. cbn [fst]. rewrite pols_set_map. reflexivity.
+  - destruct (rep_run _ _ _ _ _ _ _) as [[m' l] mk]. cbn [fst]. rewrite pols_set_map. reflexivity.
+  - reflexivity.
+  - destruct name as [|x name]; [reflexivity|]. cbn [fst pols]. apply p_get_put_gen.
+  - cbn [fst pols]. apply p_get_del_gen.
+  - reflexivity.
+  - cbn [fst pols]. apply p_get_fold_put.
+  - reflexivity.
+  - destruct (p_get (pols s) name) as [[[[d u] b] p]|]; [|reflexivity].
+    destruct (is_v4 ip); [|reflexivity]. unfold set_qos. reflexivity.
+Qed.
+
+(* FULL, every history (control-plane calls interleaved with anything else), every name, every prior table *)
+Theorem policy_table_last_definition_wins : forall ops s n,
+  p_get (pols (after_ops s ops)) n = plan_after n ops (p_get (pols s) n).
+Proof.
+  unfold after_ops, plan_after. induction ops as [|o ops IH]; intros s n; cbn [fold_left]; [reflexivity|].
+  rewrite IH, plan_step. reflexivity.
+Qed.
+
+(* ... and that binding is what GetPolicy returns and what SetSubscriberPolicy writes (or refuses) *)
+Theorem policy_plan_in_force : forall ops s n ip,
+  let s' := after_ops s ops in
+  match plan_after n ops (p_get (pols s) n) with
+  | Some (d, u, b, p) => step s' (PolGet n) = (s', OPol (Some (d, u, b, p)), []) /\
+                         step s' (ApplyPol ip n) = step s' (SetQoS true ip d u b p)
+  | None => step s' (PolGet n) = (s', OPol None, []) /\ step s' (ApplyPol ip n) = (s', OErr, [])
+  end.
+Proof.
+  intros ops s n ip. cbv zeta. rewrite <- policy_table_last_definition_wins.
+  destruct (p_get (pols (after_ops s ops)) n) as [[[[d u] b] p]|] eqn:Hg.
+  - split; [cbn [step]; rewrite Hg; reflexivity|apply apply_is_set; exact Hg].
+  - split; cbn [step]; rewrite Hg; reflexivity.
+Qed.
+
+Lemma after_ops_app s a b : after_ops s (a ++ b) = after_ops (after_ops s a) b.
+Proof. unfold after_ops. apply fold_left_app. Qed.
+
+(* guarded enforcement through a named plan, for EVERY history that leaves the plan bound to these values *)
+Theorem policy_via_plan_enforced_partial_gen : forall ops s n ip down up pr,
+  plan_after n ops (p_get (pols s) n) = Some (down, up, 0, pr) ->
+  palindromic ip -> down < 34359738368 -> up < 34359738368 -> pr < 256 ->
+  let s' := after_ops s (ops ++ [ApplyPol ip n]) in
+  enforced s' Egress ip down (contract_burst down 0) /\ enforced s' Ingress ip up (contract_burst up 0).
+Proof.
+  intros ops s n ip down up pr Hpl Hpal Hd Hu Hp. cbv zeta. rewrite after_ops_app.
+  rewrite <- policy_table_last_definition_wins in Hpl.
+  change (after_ops (after_ops s ops) [ApplyPol ip n]) with (fst (fst (step (after_ops s ops) (ApplyPol ip n)))).
+  rewrite (apply_is_set _ ip n _ _ _ _ Hpl).
+  exact (policy_enforced_partial (after_ops s ops) true ip down up pr Hpal Hd Hu Hp).
+Qed.
+
+Example plan_guard_satisfiable :
+  let guest := [103;117;101;115;116] in
+  plan_after guest [PolAdd guest 1000 1000 1500 0; PolLoadDefaults; PolAdd guest 80000000 20000000 0 3;
+                    PolRemove [1]; Sub Egress [10;1;1;10] 100 5] None = Some (80000000, 20000000, 0, 3) /\
+  plan_after guest [PolAdd guest 1000 1000 1500 0; PolLoadDefaults] None = Some (10000000, 5000000, 500000, 2) /\
+  plan_after guest [PolLoadDefaults; PolRemove guest] None = None.
+Proof. vm_compute. repeat split; reflexivity. Qed.
+
+(* egress alone needs a weaker guard: ANY rate below 2^64 and ANY explicit burst (or the default one below
+   2^35 bit/s); only the key byte order (palindromic address) remains *)
+Theorem policy_enforced_egress_partial : forall s viap ip down up b pr,
+  palindromic ip -> down < W64 -> b < W32 -> pr < 256 -> (b = 0 -> down < 34359738368) ->
+  let s' := fst (fst (step s (SetQoS viap ip down up b pr))) in
+  enforced s' Egress ip down (contract_burst down b).
+Proof.
+  intros s viap ip down up b pr (a & c & -> & Ha & Hc) Hd Hb Hp Hz.
+  cbn [step is_v4 length N.of_nat N.eqb Pos.of_succ_nat Pos.succ Pos.eqb].
+  unfold set_qos. cbn [fst]. rewrite key_bytes_rev by assumption.
+  unfold enforced, contract_burst, egress_burst. cbn [get_map eg].
+  rewrite !lookup_sub_frame, !m_get_put.
+  destruct (b =? 0) eqn:Eb.
+  - apply N.eqb_eq in Eb. rewrite decode_full by (try apply clamp_burst_lt; assumption).
+    rewrite clamp_default by (apply Hz; exact Eb).
+    eexists; eexists; (split; [reflexivity|cbn; repeat split; reflexivity]).
+  - rewrite decode_full by assumption.
+    eexists; eexists; (split; [reflexivity|cbn; repeat split; reflexivity]).
+Qed.
+
+(* rate 0 set through the control plane = unlimited at the data path: FULL for the bucket written by
+   SetSubscriberQoS / SetSubscriberPolicy (any burst, any other direction's rate, any prior state), for
+   every packet length and clock value, and the map is left as it is (so it holds for every sequence) *)
+Theorem rate_zero_set_unlimited : forall s viap ip up b pr plen now pin,
+  palindromic ip -> b < W32 -> pr < 256 ->
+  let s' := fst (fst (step s (SetQoS viap ip 0 up b pr))) in
+  exists p, qos_prog Egress (eg s') (sub_frame Egress ip) plen now pin = (eg s', VRet TC_ACT_OK p, []).
+Proof.
+  intros s viap ip up b pr plen now pin (a & c & -> & Ha & Hc) Hb Hp. cbv zeta.
+  cbn [step is_v4 length N.of_nat N.eqb Pos.of_succ_nat Pos.succ Pos.eqb].
+  unfold set_qos. cbn [fst eg].
+  rewrite key_bytes_rev by assumption.
+  assert (Hbe : egress_burst 0 b < W32).
+  { unfold egress_burst. destruct (b =? 0); [apply clamp_burst_lt|exact Hb]. }
+  eapply rate_zero_prog.
+  - rewrite lookup_sub_frame, m_get_put, decode_full by (try assumption; reflexivity). reflexivity.
+  - reflexivity.
+Qed.
+
+Theorem rate_zero_set_unlimited_ingress : forall s viap ip down b pr plen now pin,
+  palindromic ip -> pr < 256 ->
+  let s' := fst (fst (step s (SetQoS viap ip down 0 b pr))) in
+  exists p, qos_prog Ingress (ing s') (sub_frame Ingress ip) plen now pin = (ing s', VRet TC_ACT_OK p, []).
+Proof.
+  intros s viap ip down b pr plen now pin (a & c & -> & Ha & Hc) Hp. cbv zeta.
+  cbn [step is_v4 length N.of_nat N.eqb Pos.of_succ_nat Pos.succ Pos.eqb].
+  unfold set_qos. cbn [fst ing].
+  rewrite key_bytes_rev by assumption.
+  eapply rate_zero_prog.
+  - rewrite lookup_sub_frame, m_get_put, decode_full by (try assumption; try apply clamp_burst_lt; reflexivity). reflexivity.
+  - reflexivity.
+Qed.
+
+(* the same through a plan that a history left bound to download rate 0 (e.g. a limited plan RE-defined to
+   unlimited, or the built-in "unlimited"), after the plan is (re-)applied *)
+Theorem rate_zero_via_plan_unlimited : forall ops s n ip up b pr plen now pin,
+  plan_after n ops (p_get (pols s) n) = Some (0, up, b, pr) ->
+  palindromic ip -> b < W32 -> pr < 256 ->
+  let s' := after_ops s (ops ++ [ApplyPol ip n]) in
+  exists p, qos_prog Egress (eg s') (sub_frame Egress ip) plen now pin = (eg s', VRet TC_ACT_OK p, []).
+Proof.
+  intros ops s n ip up b pr plen now pin Hpl Hpal Hb Hp. cbv zeta. rewrite after_ops_app.
+  rewrite <- policy_table_last_definition_wins in Hpl.
+  change (after_ops (after_ops s ops) [ApplyPol ip n]) with (fst (fst (step (after_ops s ops) (ApplyPol ip n)))).
+  rewrite (apply_is_set _ ip n _ _ _ _ Hpl).
+  exact (rate_zero_set_unlimited (after_ops s ops) true ip up b pr plen now pin Hpal Hb Hp).
+Qed.
+
+(* ------------------------------------------------------------------ monitor accepts the Model: control plane *)
+(* every op except packet runs; on such histories no clause of the monitor can fire on the Model's own
+   outputs: the "control-plane call fails / plan read back is not the plan defined / unknown plan not
+   refused" part of clause 3 is never raised by the Model, for any history and any starting table *)
+Definition ctl_op (o : op) : bool :=
+  match o with Pkt _ _ _ _ | Sub _ _ _ _ | Rep _ _ _ _ _ _ => false | _ => true end.
+
+Definition model_io_from (s : state) (ops : list op) : list (op * out) :=
+  map (fun x => (fst (fst x), snd (fst x))) (model_trace step s ops).
+
+Lemma pol_eqb_refl p : pol_eqb p p = true.
+Proof. destruct p as [[[[a b] c] d]|]; cbn; [rewrite !N.eqb_refl; reflexivity|reflexivity]. Qed.
+
+Lemma accept_ctl s ss o : s_p ss = pols s -> ctl_op o = true ->
+  exists ss', accept ss o (snd (fst (step s o))) = inl ss' /\ s_p ss' = pols (fst (fst (step s o))).
+Proof.
+  intros Hs Hc. destruct o; try discriminate Hc; cbn [step accept].
+  - destruct (_ && _); cbn [fst snd accept_c].
+    + destruct (tb_decode val); eexists; (split; [reflexivity|cbn [s_p]; rewrite pols_set_map; exact Hs]).
+    + eexists; (split; [reflexivity|exact Hs]).
+  - destruct (is_v4 ip) eqn:E.
+    + unfold set_qos. cbn [fst snd accept_c]. eexists; (split; [reflexivity|exact Hs]).
+    + cbn [fst snd accept_c]. rewrite E. eexists; (split; [reflexivity|exact Hs]).
+  - destruct (is_v4 ip); cbn [fst snd accept_c]; eexists; (split; [reflexivity|exact Hs]).
+  - cbn [fst snd accept_c]. eexists; (split; [reflexivity|exact Hs]).
+  - destruct name as [|x name]; cbn [fst snd]; eexists; (split; [reflexivity|]); [exact Hs|cbn [s_p pols]; rewrite Hs; reflexivity].
+  - cbn [fst snd]. eexists; (split; [reflexivity|]). cbn [s_p pols]. rewrite Hs. reflexivity.
+  - cbn [fst snd]. rewrite Hs, pol_eqb_refl. eexists; (split; [reflexivity|exact Hs]).
+  - cbn [fst snd]. eexists; (split; [reflexivity|]). cbn [s_p pols]. rewrite Hs. reflexivity.
+  - cbn [fst snd]. eexists; (split; [reflexivity|exact Hs]).
+  - rewrite Hs. destruct (p_get (pols s) name) as [[[[d u] b] p]|]; cbn [fst snd].
+    + destruct (is_v4 ip) eqn:E.
+      * unfold set_qos. cbn [fst snd accept_c]. eexists; (split; [reflexivity|reflexivity]).
+      * cbn [fst snd accept_c]. rewrite E. eexists; (split; [reflexivity|reflexivity]).
+    + eexists; (split; [reflexivity|exact Hs]).
+Qed.
+
+Theorem monitor_accepts_model_control_plane : forall ops s ss i,
+  s_p ss = pols s -> forallb ctl_op ops = true ->
+  accept_trace accept i ss (model_io_from s ops) = (0, 0).
+Proof.
+  unfold model_io_from. induction ops as [|o ops IH]; intros s ss i Hs Hc; [reflexivity|].
+  cbn [forallb] in Hc. apply andb_true_iff in Hc. destruct Hc as [Ho Hc].
+  destruct (accept_ctl s ss o Hs Ho) as (ss' & Ha & Hs').
+  cbn [model_trace]. destruct (step s o) as [[s1 r] mk] eqn:Est. cbn [map fst snd accept_trace].
+  cbn [fst snd] in Ha, Hs'. rewrite Ha. apply IH; assumption.
+Qed.
+
+Example control_plane_history_nontrivial :
+  let guest := [103;117;101;115;116] in
+  let ops := [PolLoadDefaults; PolGet guest; PolAdd guest 80000000 20000000 0 3; PolGet guest; ApplyPol [10;1;1;10] guest;
+              PolAdd [] 1 1 1 1; PolRemove guest; ApplyPol [10;1;1;10] guest; PolGet guest; PolList; Snap Egress] in
+  forallb ctl_op ops = true /\
+  map snd (model_io_from init ops) =
+    [OUnit; OPol (Some (10000000, 5000000, 500000, 2)); OUnit; OPol (Some (80000000, 20000000, 0, 3)); OUnit;
+     OErr; OUnit; OErr; OPol None;
+     ONames (map fst (p_del (fold_left (fun t x => p_put t (fst x) (snd x)) default_policies []) guest));
+     OSnap [([10;1;1;10], full_bucket 80000000 10000000 3)]].
+Proof. vm_compute. split; reflexivity. Qed.
